@@ -110,10 +110,13 @@ def run(ctx):
   rule_writers(ctx)
   rule_registry(ctx)
   rule_issuer(ctx, bodies)
+  # "re-running checks never clears a recorded factor": AttachFactors merges with what is already recorded (shared with C01)
+  from . import c01
+  ctx.borrow(c01.rule_merge, "R-C16-MONO")
   ctx.expect("R-C16-ONCE", 24, "24 Check bodies")
   ctx.expect("R-C16-PAIR", 24, "24 Check bodies")
   ctx.expect("R-C16-SEVERITY", 29 + 9, "29 registered classes + 9 README rows")
-  ctx.expect("R-C16-MONO", 6, "six clauses of SetTestResult/AttachInfo")
+  ctx.expect("R-C16-MONO", 9, "six clauses of SetTestResult/AttachInfo + three of AttachFactors")
   ctx.expect("R-C16-REGISTRY", 5, "five registries")
 
 
